@@ -8,10 +8,12 @@ use tower_resilience_ratelimiter::{RateLimiter, RateLimiterLayer, RateLimiterSer
 
 pub struct RateLimiterAd {
     svc: Option<Handles<RateLimiter<Inner>>>,
+    sib: Vec<Sibling>,
+    variant: String,
 }
 impl RateLimiterAd {
-    pub fn new() -> Self {
-        RateLimiterAd { svc: None }
+    pub fn new(variant: &str) -> Self {
+        RateLimiterAd { svc: None, sib: vec![], variant: variant.into() }
     }
 }
 fn map_res(r: Result<Resp, RateLimiterServiceError<IErr>>) -> Out {
@@ -32,7 +34,8 @@ impl Adapter for RateLimiterAd {
         let l = 1 + rng.below(if size == Size::Quick { 3 } else { 5 });
         let p = *rng.pick(&[3u64, 4, 5, 8]);
         let t = *rng.pick(&[0u64, 1, 2, p - 1, p, p + 1, 2 * p, 2 * p + 1, 4 * p]);
-        json!({"hm": rng.below(4), "win": win, "L": l, "P": p, "T": t, "slow": if rng.pct(35) { 1 } else { 0 }, "base": if rng.pct(40) { 1 + rng.below(3) } else { 0 }, "ord": rng.below(3)})
+        json!({"hm": rng.below(4), "win": win, "L": l, "P": p, "T": t, "slow": if rng.pct(35) { 1 } else { 0 }, "base": if rng.pct(40) { 1 + rng.below(3) } else { 0 }, "ord": rng.below(3), "sib": rng.below(2),
+               "lazy": if self.variant == "lazy" { 1 } else { 0 }})
     }
     fn build(&mut self, cfg: &Value, sim: &mut Sim) {
         // slow = 1: admitted calls stay inside the inner service until the environment resolves them (or the caller is
@@ -58,6 +61,12 @@ impl Adapter for RateLimiterAd {
             2 => b.timeout_duration(t).limit_for_period(l).window_type(wt).refresh_period(p).name("rl").build(),
             _ => b.limit_for_period(l).refresh_period(p).timeout_duration(t).window_type(wt).build(),
         };
+        // cfg.sib = 1: a second limiter built from the same layer value uses up its own window first
+        self.sib.clear();
+        if cfg["sib"].as_u64().unwrap_or(0) == 1 {
+            let w2 = sibling_world();
+            self.sib.push(sibling_traffic(layer.layer(Inner::new(&w2)), w2, l + 2));
+        }
         self.svc = Some(Handles::new(layer.layer(Inner::new(&sim.w)), cfg["hm"].as_u64().unwrap_or(0)));
     }
     fn mk(&mut self, req: &Req) -> CallFut {
@@ -82,6 +91,11 @@ impl Adapter for RateLimiterAd {
             d.outs = vec![(GOut::Ok, 3), (GOut::Err(1), 2), (GOut::Panic, 1)];
         }
         d.max_adv = if rng.pct(30) { 2 * p + 1 } else { 2 };
+        // lazy (variant "lazy", C02 only): waiters may be polled late
+        d.lazy = cfg["lazy"].as_u64().unwrap_or(0) == 1;
+        if d.lazy {
+            d.w_adv = 6;
+        }
         d
     }
     fn finale(&self, cfg: &Value) -> Vec<Value> {
@@ -90,5 +104,6 @@ impl Adapter for RateLimiterAd {
     }
     fn teardown(&mut self) {
         self.svc = None;
+        self.sib.clear();
     }
 }
